@@ -298,6 +298,9 @@ def run_lines(binary, lines, shards=None, timeout=1800, args=(), stall=None, per
         return []
     if stall is None and os.sep + "target" in binary:
         stall = float(os.environ.get("PV_STALL_S", "30"))
+    # the thorough tier gives every batch more time (set by ./check): an extracted model working through long inputs on a
+    # loaded machine must not be mistaken for a crash
+    timeout = max(timeout, int(os.environ.get("PV_RUN_TIMEOUT", "0") or 0))
     shards = shards or min(NPROC, max(1, len(lines) // per))
     idx = [list(range(i, len(lines), shards)) for i in range(shards)]
     out = [None] * len(lines)
